@@ -435,7 +435,7 @@ type Sentence struct {
 }
 
 // Level of the corpus: 1 = one sentence per rule; 2 = + every (rule, position, child rule);
-// 3 = + all empty/non-empty combinations of nullable RHS symbols; 4 = + 3-paths; 5 = + pairs of positions.
+// 3 = + all empty/non-empty combinations of nullable RHS symbols; 4 = + 3-paths; 5 = + pairs of positions; 6 = + sibling lists of different lengths.
 func (g *Gram) Sentences(level int) []Sentence {
 	a := g.A
 	var out []Sentence
@@ -614,7 +614,124 @@ func (g *Gram) Sentences(level int) []Sentence {
 			}
 		}
 	}
+	if level >= 6 {
+		// sibling lists of different lengths: every rule with two right-hand-side positions from which a list
+		// nonterminal (L: L sep X | X) is reachable, the two lists expanded to (1,2) (2,1) (2,3) (3,1) (1,3)
+		// elements; and every single such position with 3 elements. Catches separator lists stored or printed
+		// under the wrong sibling, which agree whenever both lists have the same length.
+		for _, n := range a.RuleNum {
+			p := a.Rules[n]
+			c, ok := g.Ctxs[p.LHS]
+			if !ok || !usable(p) {
+				continue
+			}
+			var pos []int
+			for i, s := range p.RHS {
+				if a.IsNT[s] && g.expandList(s, 2, 3) != nil {
+					pos = append(pos, i)
+				}
+			}
+			build := func(ex map[int]int) []string {
+				var mid []string
+				for i, s := range p.RHS {
+					if k, ok := ex[i]; ok {
+						mid = append(mid, g.expandList(s, k, 3)...)
+					} else {
+						mid = append(mid, g.Expand([]string{s})...)
+					}
+				}
+				return mid
+			}
+			for _, i := range pos {
+				add(wrap(c, build(map[int]int{i: 3})), n, fmt.Sprintf("rule %d list at pos %d x3", n, i))
+			}
+			for x := 0; x < len(pos); x++ {
+				for y := x + 1; y < len(pos); y++ {
+					for _, ab := range [][2]int{{1, 2}, {2, 1}, {2, 3}, {3, 1}, {1, 3}} {
+						add(wrap(c, build(map[int]int{pos[x]: ab[0], pos[y]: ab[1]})), n,
+							fmt.Sprintf("rule %d lists at pos %d x%d and pos %d x%d", n, pos[x], ab[0], pos[y], ab[1]))
+					}
+				}
+			}
+		}
+	}
 	return out
+}
+
+// listRule: is nt a list nonterminal?  L: L [sep] X  |  X   (returns the recursive and the base rule)
+func (g *Gram) listRule(nt string) (rec, base *Rule) {
+	for _, r := range g.A.ByLHS[nt] {
+		if g.A.HasErr(r) {
+			continue
+		}
+		if len(r.RHS) >= 2 && r.RHS[0] == nt {
+			if rec == nil || len(r.RHS) < len(rec.RHS) {
+				rec = r
+			}
+		}
+	}
+	if rec == nil {
+		return nil, nil
+	}
+	elem := rec.RHS[len(rec.RHS)-1]
+	for _, r := range g.A.ByLHS[nt] {
+		if len(r.RHS) == 1 && r.RHS[0] == elem {
+			base = r
+		}
+	}
+	if base == nil {
+		return nil, nil
+	}
+	return rec, base
+}
+
+// expandList: the yield of sym in which the first list nonterminal reachable from sym (through at most
+// depth rule applications, everything else minimal) has k elements; nil if no list is reachable.
+func (g *Gram) expandList(sym string, k, depth int) []string {
+	if !g.A.IsNT[sym] {
+		return nil
+	}
+	if rec, base := g.listRule(sym); rec != nil {
+		// L_k = X (sep X)^(k-1)
+		y := g.Expand(base.RHS)
+		for i := 1; i < k; i++ {
+			y = append(y, g.Expand(rec.RHS[1:])...)
+		}
+		return y
+	}
+	if depth == 0 {
+		return nil
+	}
+	var best []string
+	for _, r := range g.A.ByLHS[sym] {
+		if g.A.HasErr(r) {
+			continue
+		}
+		usable := true
+		for _, s := range r.RHS {
+			if g.A.IsNT[s] {
+				if _, ok := g.MinY[s]; !ok {
+					usable = false
+				}
+			}
+		}
+		if !usable {
+			continue
+		}
+		for i, s := range r.RHS {
+			sub := g.expandList(s, k, depth-1)
+			if sub == nil {
+				continue
+			}
+			y := append(g.Expand(r.RHS[:i]), sub...)
+			y = append(y, g.Expand(r.RHS[i+1:])...)
+			if best == nil || Cost(y) < Cost(best) {
+				best = y
+			}
+			break
+		}
+	}
+	return best
 }
 
 // Unbalanced lists the rules whose right-hand side is not bracket-balanced (the C06 lemma needs none).
